@@ -13,7 +13,7 @@ structure InvCover (s : St) : Prop where
   acc : ∀ w acc, (w, acc) ∈ s.acceptedAt → ∃ obs, (w, obs) ∈ s.obligations ∧ ∀ x ∈ acc, x ∈ obs ∨ Done s x
 
 macro "cover_close" : tactic => `(tactic|
-  (constructor <;> simp_all [Done, Rx.inflight] <;> first | assumption | grind))
+  (constructor <;> simp_all [Done] <;> first | assumption | grind))
 
 theorem invCover_init : InvCover init := by
   constructor <;> simp [init]
